@@ -200,4 +200,31 @@ CLAIMS = {
                 "(C02).",
         "technique": "bounded-exhaustive enumeration of path names + property-based generation against a reference resolver",
     },
+    "C07": {
+        "level": "Generated-input search (Hypothesis): ~20k cases (~125k renders) per quick run over one shared pool of "
+                 "names: non-interference oracles - caller -> callee (vary the caller's assign/capture/counter/cycle/"
+                 "loop/with/outer-argument bindings, the text between sentinels around a render or call must not change), "
+                 "callee -> caller (vary the callee's side effects, the caller's later text must not change), include "
+                 "refused inside render/macro at every placement, block-scoped names (for/tablerow/with/partial "
+                 "arguments/macro and lambda parameters/translate arguments/forloop) gone after the block incl. break/"
+                 "continue, and scope/loops/template/disabled_tags balance of a harness-made RenderContext after return "
+                 "or after each of 11 injected error kinds. Exploration only.",
+        "design_ref": "DESIGN.md §3 C07",
+        "note": "include shares the caller's scope by design (only its arguments are block scoped); loop drops and nested "
+                "tablerow are kept out of the generated programs.",
+        "technique": "property-based non-interference testing (Hypothesis)",
+    },
+    "C18": {
+        "level": "Metamorphic search (Hypothesis): ~6k programs (quick; 150k thorough), each rendered under the 4 uniform "
+                 "marker assignments and either all 4^n assignments (n <= 4 marker slots) or 4 drawn ones x default_trim "
+                 "{+,-,~} x suppression on/off (~130 renders per program, 800k per quick run); all outputs must be equal "
+                 "once whitespace (str.isspace) is removed; programs with literal control flow are additionally compared "
+                 "character for character with an independent interpreter when no trimming is in force. Literal text is "
+                 "drawn from every whitespace character str.strip() removes. Exploration; exhaustive per program for "
+                 "small marker counts.",
+        "design_ref": "DESIGN.md §3 C18",
+        "note": "The exact effect of each marker (what '-' vs '~' removes, the carry rule) is not demanded here - the "
+                "statement only bounds the effect to whitespace; exact trimming is checked under C01.",
+        "technique": "metamorphic property-based testing over marker assignments (Hypothesis)",
+    },
 }
